@@ -215,15 +215,15 @@ def _first_diff(a, b):
     return stale, missing, differ
 
 
-def run_history(prog, out, stats, lines=None, prepared=False):
-    """-> nothing; failures go to `out` with detail["oracle"] naming the clause that failed and
-    detail["step"] the write after which it failed; the history reported is cut after that write.
-    `lines`: list collecting (driver line, expected answer, history) for the SaveFiles correspondence."""
+def run_history(prog, out, stats, model=True, prepared=False):
+    """-> number of writes compared with the Lean model of the save step; failures go to `out` with
+    detail["oracle"] naming the clause that failed and detail["step"] the write after which it failed;
+    the history reported is cut after that write."""
     if not prepared:
         prog = accepted_only(prog, stats)
         if prog is None:
             _bump(stats, "hist:dropped")
-            return
+            return 0
     ops, cfg, steps = prog["ops"], prog.get("cfg", {}), prog["steps"]
     close_all()
     tmp = tempfile.mkdtemp(prefix="mxh_c04h_")
@@ -234,7 +234,8 @@ def run_history(prog, out, stats, lines=None, prepared=False):
     target = os.path.join(work, cfg.get("target", "model"))
     nslots = MAX_BACKUPS + 2
     trace = []              # for the Lean model: (fmt, max_backups, names written by this write)
-    origin = {}             # slot -> index of the write whose content the slot holds
+    posts = []              # the slots after every write
+    wants = []              # what a fresh write of the same model with the same options gave
 
     def hist_upto(k):
         return {"ops": ops, "cfg": cfg, "steps": steps[:k + 1]}
@@ -244,7 +245,7 @@ def run_history(prog, out, stats, lines=None, prepared=False):
         d.update(detail or {})
         out.fail(what, hist_upto(k), detail=d, key=key)
 
-    try:
+    def steps_():
         b = base.Builder("M")
         m = b.build(ops)
         if b.rejected:
@@ -385,17 +386,10 @@ def run_history(prog, out, stats, lines=None, prepared=False):
             if extra:
                 fail("after %s there is something else beside the target: %s" % (label, extra), k, "residue")
 
-            # ---- the Lean model of the save step, on file names
-            if rotated:
-                for i in range(min(MAX_BACKUPS, nslots - 1), 0, -1):
-                    if (i - 1) in origin:
-                        origin[i] = origin[i - 1]
-                    else:
-                        origin.pop(i, None)
-            origin[0] = k
+            # ---- for the Lean model of the save step (file names): see `check_model`
             trace.append((w["fmt"], MAX_BACKUPS if backup_of(w) else 0, entries_of(want)))
-            if lines is not None and exact:
-                lines.append((trace_line(trace), observed_line(post, origin), hist_upto(k)))
+            posts.append(post)
+            wants.append(want)
 
             # ---- read the target back, compare with the live model
             if not read_known_failure:
@@ -417,35 +411,89 @@ def run_history(prog, out, stats, lines=None, prepared=False):
                     fail("reading the target changed the live model (path %r, name %r)" % (str(m.path), m.name),
                          k, "read-inert")
             _bump(stats, "hist:steps")
+
+    try:
+        steps_()
+        if model and trace:
+            return check_model(trace, posts, wants, hist_upto, out)
+        return 0
     finally:
         close_all()
         shutil.rmtree(tmp, ignore_errors=True)
 
 
-# ---- SaveFiles correspondence: encoding ----------------------------------------------------
-
-def _enc_name(n):
-    return base.enc_str(n)
-
+# ---- SaveFiles correspondence ---------------------------------------------------------------
 
 def trace_line(trace):
-    """saves <fmt>:<maxB>:<name>;<name>... | ...   (names as code points, see Driver/Codec.lean)"""
+    """saves <fmt>:<maxB>:<name>;<name>...|...   (names as code points, see Driver/Codec.lean)"""
     parts = []
     for fmt, maxb, names in trace:
-        parts.append("%s:%d:%s" % (fmt, maxb, ";".join(_enc_name(n) for n in names) if names else "."))
+        parts.append("%s:%d:%s" % (fmt, maxb, ";".join(base.enc_str(n) for n in names) if names else "."))
     return "saves " + "|".join(parts)
 
 
-def observed_line(post, origin):
-    """the slots as the model prints them: <slot>=<kind>[<name>@<write>;...] joined by ' ', absent slots left
-    out; every entry of a slot carries the index of the write whose content the slot holds"""
-    res = []
-    for i, s in enumerate(post):
-        if s is None:
-            continue
-        g = origin.get(i, -1)
-        res.append("%d=%s[%s]" % (i, s[0], ";".join("%s@%d" % (_enc_name(n), g) for n in entries_of(s))))
-    return "ok " + " ".join(res)
+def parse_state(text):
+    """'0=dir[97@0;98@0] 1=zip[..]' -> {slot: (kind, [(name, write index)])}"""
+    res = {}
+    for part in text.split():
+        slot, _, rest = part.partition("=")
+        kind, _, body = rest.partition("[")
+        body = body[:-1]
+        ents = []
+        for e in (body.split(";") if body else []):
+            n, _, g = e.rpartition("@")
+            ents.append((base.dec_str(n), int(g)))
+        res[int(slot)] = (kind, ents)
+    return res
+
+
+def _summary(slots):
+    return " ".join("%d=%s[%d]" % (i, s[0], len(entries_of(s))) for i, s in enumerate(slots) if s is not None)
+
+
+def check_model(trace, posts, wants, hist_upto, out):
+    """The Lean model `SaveFiles.run` on (format, max_backups, names each write produces when it goes to a
+    fresh path) against the real slots after every write: same slots, same kind, same entry names, and
+    every entry the model says is from write g has the bytes write g gave it in its fresh reference."""
+    got = core.run_driver("codec", [trace_line(trace)])[0]
+    if not got.startswith("ok "):
+        out.disagree(hist_upto(len(trace) - 1), len(trace) - 1, "every write succeeded", got, layer="codec")
+        return len(trace)
+    states = got[3:].split(" | ")
+    for k, post in enumerate(posts):
+        if k >= len(states) or states[k] == "err":
+            out.disagree(hist_upto(k), k, "write %d succeeded: %s" % (k + 1, _summary(post)),
+                         states[k] if k < len(states) else "(no state)", layer="codec")
+            return len(trace)
+        ms = parse_state(states[k])
+        real = {i: s for i, s in enumerate(post) if s is not None}
+        why = None
+        if sorted(ms) != sorted(real):
+            why = "existing slots"
+        else:
+            for i in sorted(real):
+                kind, ents = ms[i]
+                if kind != real[i][0]:
+                    why = "kind of slot %d" % i
+                elif sorted(n for n, _ in ents) != entries_of(real[i]):
+                    why = "entries of slot %d" % i
+                else:
+                    gens = set(g for _, g in ents)
+                    if len(gens) == 1:
+                        if real[i] != wants[gens.pop()]:
+                            why = "content of slot %d" % i
+                    elif real[i][0] == "dir":
+                        for n, g in ents:
+                            if wants[g][0] != "dir" or wants[g][1].get(n) != real[i][1][n]:
+                                why = "content of %s in slot %d" % (n, i)
+                                break
+                if why:
+                    break
+        if why:
+            out.disagree(hist_upto(k), k, "after write %d: %s (differs in: %s)" % (k + 1, _summary(post), why),
+                         states[k][:300], layer="codec")
+            return len(trace)
+    return len(trace)
 
 
 # =====================================================================================
@@ -838,7 +886,7 @@ def rotation_history(rng):
 def _fails_with(prog, oracle, known_keys):
     out, stats = core.Outcome(), {}
     try:
-        run_history(prog, out, stats)
+        run_history(prog, out, stats, model=False)
     except Exception:
         return None
     for f in out.failures:
@@ -982,26 +1030,14 @@ def programs(ctx):
             yield ("hist-random:%d" % i, p)
 
 
-def check_lines(lines, out):
-    """SaveFiles correspondence: the Lean model's slots after every write against the real ones"""
-    if not lines:
-        return 0
-    got = core.run_driver("codec", [ln for ln, _, _ in lines])
-    for (ln, exp, hist), g in zip(lines, got):
-        if exp.rstrip() != g.rstrip():
-            out.disagree(hist, len(hist["steps"]) - 1, exp, g, layer="codec")
-            break
-    return len(lines)
-
-
 def run_batch(ctx, out, stats, progs=None):
     """-> number of SaveFiles lines compared"""
     known = set(f.get("key") for f in core.load_findings("C04"))
-    lines = []
+    compared = 0
     seen_oracles = set()
     for tag, prog in (progs if progs is not None else programs(ctx)):
         n0 = len(out.failures)
-        run_history(prog, out, stats, lines=lines)
+        compared += run_history(prog, out, stats)
         # minimise the first failing history of every clause
         for f in list(out.failures[n0:]):
             oracle = (f.get("detail") or {}).get("oracle")
@@ -1013,4 +1049,4 @@ def run_batch(ctx, out, stats, progs=None):
                 f["history"] = small
                 f["what"] = sf["what"]
                 f["detail"] = dict(sf["detail"] or {}, shrunk_from=tag)
-    return check_lines(lines, out)
+    return compared
